@@ -87,6 +87,8 @@ Hypothesis Hty : ty < 4.
 Hypothesis HencS : forall s, length (encS s) = 16%nat.
 Hypothesis Hd2 : (2 <= d)%nat.
 Hypothesis Hdb : 16 + 16 * N.of_nat d < 4294967296.
+Variable xs : wm_tx.               (* a reference state (the start of the current call) and the number of chunks then *)
+Variable n0 : nat.
 
 Definition rt_ent (offs : list N) (e : Z * nat) : Z * N := (fst e, rt_psi offs (snd e)).
 
@@ -166,8 +168,22 @@ Record rt_R (cs : list rf_chunk) (x : wm_tx) (disk : list (ts_chunk A SE)) (h : 
       wm_get_off (wm_tk_offsets (wm_tx_tk x)) (N.of_nat L) = rt_psi (map rc_off cs) (h L) /\ (h L <= length cs)%nat
 }.
 
+(* since the reference state xs: the raw state only extended and ALL chunks appended are the last (length cs - n0) of cs *)
+Definition rt_dl (cs : list rf_chunk) (x : wm_tx) : Prop :=
+  rf_ext (wm_b_raw (wm_tx_base xs)) (wm_b_raw (wm_tx_base x)) /\ (n0 <= length cs)%nat /\
+  rt_out x = rev (skipn n0 cs) ++ rt_out xs.
+
+Lemma rt_dl_cons : forall cs c x x1, rt_dl cs x -> rf_ext (wm_b_raw (wm_tx_base x)) (wm_b_raw (wm_tx_base x1)) ->
+  rt_out x1 = c :: rt_out x -> rt_dl (cs ++ [c]) x1.
+Proof.
+  intros cs c x x1 (D1 & D2 & D3) He Ho. split; [eapply rf_ext_trans; eauto|]. split; [rewrite app_length; lia|].
+  rewrite Ho, D3. rewrite skipn_app. replace (n0 - length cs)%nat with 0%nat by lia. cbn [skipn]. rewrite rev_app_distr. reflexivity.
+Qed.
+Lemma rt_dl_same : forall cs x x', rt_dl cs x -> wm_tx_base x' = wm_tx_base x -> rt_dl cs x'.
+Proof. intros cs x x' (D1 & D2 & D3) E. unfold rt_dl, rt_out in *. rewrite E. split; [exact D1|]. split; assumption. Qed.
+
 Definition rt_S (pre cs : list rf_chunk) (x : wm_tx) (disk : list (ts_chunk A SE)) (h : nat -> nat) : Prop :=
-  rt_R cs x disk h /\ filter rt_mine (rt_out x) = rev cs ++ pre.
+  rt_R cs x disk h /\ filter rt_mine (rt_out x) = rev cs ++ pre /\ rt_dl cs x.
 
 
 Lemma rt_meta_sid : forall level, level < 16 -> N.land (wm_meta sid level) 4095 = sid.
@@ -242,7 +258,7 @@ Lemma rt_sim_index : forall pre cs x disk h L es payload,
   exists c, rt_S pre (cs ++ [c]) x1 (disk ++ [TsIndex L es]) (ts_head_upd h L (S (length cs))) /\
             rc_off c = wm_raw_chunk_tell (wm_b_raw (wm_tx_base x)).
 Proof.
-  intros pre cs x disk h L es payload ([Tbok Ttok Tty Tlen Tdec Tnz Tdisk Theads] & Hout) HL Hplt Hpay Hes bt x1.
+  intros pre cs x disk h L es payload ([Tbok Ttok Tty Tlen Tdec Tnz Tdisk Theads] & Hout & Hdl) HL Hplt Hpay Hes bt x1.
   pose proof (rf_core_wr_index (wm_tx_base x) sid (wm_tx_tk x) (N.of_nat L) payload Tbok Ttok Hplt) as X.
   cbv zeta in X. fold bt in X.
   destruct X as (Hbok' & Htok' & Hext & Htell & Hfe' & Hout' & Hoffs' & Hdh' & Hsh' & Hhd' & Hty' & _).
@@ -272,7 +288,8 @@ Proof.
       rewrite map_length in Y.
       specialize (Y ltac:(intros M' HM'; destruct (Theads M' HM') as (E1 & E2); split; [exact E1|exact E2]) M HM).
       cbv zeta in Y. destruct Y as (Y1 & Y2). split; [exact Y1|]. rewrite !app_length, map_length in *. cbn [length] in *. lia.
-  - unfold rt_out. cbn [wm_tx_base x1]. rewrite Hout'. apply rt_filter_cons_mine; [|exact Hout].
+  - split; [|apply (rt_dl_cons cs c x x1 Hdl); [exact Hext|exact Hout']].
+    unfold rt_out. cbn [wm_tx_base x1]. rewrite Hout'. apply rt_filter_cons_mine; [|exact Hout].
     apply (rt_mine_tag c JLS_TRACK_CHUNK_INDEX); [tauto|cbn [rc_tag c]; rewrite Tty; reflexivity|cbn [rc_meta c]; apply rt_meta_sid; lia].
 Qed.
 
@@ -283,7 +300,7 @@ Lemma rt_sim_summary : forall pre cs x disk h L (ss : list SE) ts0,
   let x1 := {| wm_tx_base := fst bt; wm_tx_tk := snd bt; wm_tx_ts := wm_tx_ts x |} in
   exists c, rt_S pre (cs ++ [c]) x1 (disk ++ [TsSummary L ss]) h.
 Proof.
-  intros pre cs x disk h L ss ts0 ([Tbok Ttok Tty Tlen Tdec Tnz Tdisk Theads] & Hout) HL Hss payload bt x1.
+  intros pre cs x disk h L ss ts0 ([Tbok Ttok Tty Tlen Tdec Tnz Tdisk Theads] & Hout & Hdl) HL Hss payload bt x1.
   assert (Hpl : rf_len payload = 16 + 16 * N.of_nat (length ss)).
   { subst payload. rewrite rt_summary_payload_len; [rewrite map_length; reflexivity|].
     apply Forall_forall. intros e He. apply in_map_iff in He. destruct He as (s0 & <- & _). apply HencS. }
@@ -311,7 +328,8 @@ Proof.
         split; [rewrite Tty; reflexivity|]. split; [reflexivity|]. exists ts0. reflexivity.
     + intros M HM. rewrite Hoffs', Hmapoff. destruct (Theads M HM) as (E1 & E2).
       split; [rewrite rt_psi_app by (rewrite map_length; exact E2); exact E1|rewrite app_length; lia].
-  - unfold rt_out. cbn [wm_tx_base x1]. rewrite Hout'. apply rt_filter_cons_mine; [|exact Hout].
+  - split; [|apply (rt_dl_cons cs c x x1 Hdl); [exact Hext|exact Hout']].
+    unfold rt_out. cbn [wm_tx_base x1]. rewrite Hout'. apply rt_filter_cons_mine; [|exact Hout].
     apply (rt_mine_tag c JLS_TRACK_CHUNK_SUMMARY); [tauto|cbn [rc_tag c]; rewrite Tty; reflexivity|cbn [rc_meta c]; apply rt_meta_sid; lia].
 Qed.
 
@@ -320,8 +338,8 @@ Lemma rt_S_set_ts : forall pre cs x disk h s',
   rt_S pre cs x disk h -> length (wm_ts_levels s') = 16%nat -> wm_ts_dec s' = N.of_nat d ->
   rt_S pre cs (wm_tx_set_ts x s') disk h.
 Proof.
-  intros pre cs x disk h s' ([Tbok Ttok Tty Tlen Tdec Tnz Tdisk Theads] & Hout) Hl Hd.
-  split; [|exact Hout]. constructor; cbn [wm_tx_set_ts wm_tx_base wm_tx_tk wm_tx_ts]; assumption.
+  intros pre cs x disk h s' ([Tbok Ttok Tty Tlen Tdec Tnz Tdisk Theads] & Hout & Hdl) Hl Hd.
+  split; [|split; [exact Hout|eapply rt_dl_same; [exact Hdl|reflexivity]]]. constructor; cbn [wm_tx_set_ts wm_tx_base wm_tx_tk wm_tx_ts]; assumption.
 Qed.
 
 Lemma rt_alloc_len : forall s l, length (wm_ts_levels (wm_ts_alloc s l)) = length (wm_ts_levels s).
@@ -354,7 +372,7 @@ Lemma rt_sim_commit : forall fuel L wfuel close pre cs x disk h l ups l' ups' ch
 Proof.
   induction fuel as [|f IH]; intros L wfuel close pre cs x disk h l ups l' ups' ch h' HS Hlv HL Hwf Hc x'; [discriminate Hc|].
   destruct wfuel as [|wf]; [lia|]. subst x'. cbn [wm_ts_commit ts_commit] in *.
-  pose proof HS as (HR & Hout). pose proof HR as [Tbok Ttok Tty Tlen Tdec Tnz Tdisk Theads].
+  pose proof HS as (HR & Hout & Hdl). pose proof HR as [Tbok Ttok Tty Tlen Tdec Tnz Tdisk Theads].
   cbn [rt_lvls] in Hlv. destruct Hlv as ((lv & Hget & Hrel) & Hups).
   rewrite Hget. destruct Hrel as (A1 & A2 & A3 & A4 & A5 & A6 & A7).
   assert (Hlenidx : length (wm_tl_idx lv) = length (tl_idx l)) by (rewrite <- (rev_length (wm_tl_idx lv)), A3, map_length; reflexivity).
@@ -550,7 +568,7 @@ Lemma rt_sim_data : forall pre cs x disk h r,
   let x1 := {| wm_tx_base := fst bt; wm_tx_tk := snd bt; wm_tx_ts := wm_tx_ts x |} in
   exists c, rt_S pre (cs ++ [c]) x1 (disk ++ [TsData r]) (ts_head_upd h 0 (S (length cs))) /\ rc_off c = offset.
 Proof.
-  intros pre cs x disk h r ([Tbok Ttok Tty Tlen Tdec Tnz Tdisk Theads] & Hout) b t offset hd0 r1 h1 r2 dh bt x1.
+  intros pre cs x disk h r ([Tbok Ttok Tty Tlen Tdec Tnz Tdisk Theads] & Hout & Hdl) b t offset hd0 r1 h1 r2 dh bt x1.
   pose proof Tbok as (Hr & B1 & B2 & B3). pose proof Ttok as (Kd & Ki & Ks & Kl & Kt & Kh1 & Kh2 & Kh3).
   destruct (rt_tag_ok JLS_TRACK_CHUNK_DATA ltac:(unfold JLS_TRACK_CHUNK_DATA, JLS_TRACK_CHUNK_SUMMARY; lia)) as (Htag0 & Htag).
   pose proof (rf_append_link (wm_b_raw b) (wm_tk_data_head t) (wm_ck_offset (wm_tk_data_head t))
@@ -590,7 +608,11 @@ Proof.
       rewrite map_length in Z.
       specialize (Z ltac:(intros M' HM'; destruct (Theads M' HM') as (E1 & E2); split; [exact E1|exact E2]) M HM).
       cbv zeta in Z. destruct Z as (Z1 & Z2). split; [exact Z1|]. rewrite !app_length, map_length in *. cbn [length] in *. lia.
-  - unfold rt_out. cbn [wm_tx_base x1]. rewrite Hout', Hout2. apply rt_filter_cons_mine; [|exact Hout].
+  - split.
+    2:{ apply (rt_dl_cons cs c x x1 Hdl).
+        - cbn [wm_tx_base x1]. eapply rf_ext_trans; [exact Hext1|]. eapply rf_ext_of with (new := []); [lia|rewrite Hd'; apply incl_refl|exact Hout'].
+        - unfold rt_out. cbn [wm_tx_base x1]. rewrite Hout', Hout2. reflexivity. }
+    unfold rt_out. cbn [wm_tx_base x1]. rewrite Hout', Hout2. apply rt_filter_cons_mine; [|exact Hout].
     apply (rt_mine_tag c JLS_TRACK_CHUNK_DATA); [tauto|reflexivity|cbn [rc_meta c]; apply rt_sid_land].
 Qed.
 
@@ -629,7 +651,7 @@ Proof.
   destruct (wm_update_item_head r1 _ _) as [r2 dh]. cbn [fst snd] in HS1.
   destruct (wm_track_update _ sid _ 0 _) as [b1 t1]. cbn [fst snd] in HS1.
   cbv zeta. cbn [wm_tx_ts].
-  pose proof HS1 as ([Tbok Ttok Tty Tlen Tdec Tnz Tdisk Theads] & Hout). cbn [wm_tx_ts] in Tlen, Tdec.
+  pose proof HS1 as ([Tbok Ttok Tty Tlen Tdec Tnz Tdisk Theads] & Hout & Hdl1). cbn [wm_tx_ts] in Tlen, Tdec.
   rewrite Tdec. destruct (N.leb_spec (N.of_nat d) 1) as [Hbad|_]; [lia|].
   set (offset := wm_raw_chunk_tell (wm_b_raw (wm_tx_base x))) in *.
   set (y := {| wm_tx_base := b1; wm_tx_tk := t1; wm_tx_ts := wm_tx_ts x |}) in *.
@@ -788,21 +810,22 @@ Definition rt_fresh (x : wm_tx) : Prop :=
   rf_bok (wm_tx_base x) /\ rf_tok (wm_b_raw (wm_tx_base x)) (wm_tx_tk x) /\ wm_tk_type (wm_tx_tk x) = ty /\
   wm_tk_offsets (wm_tx_tk x) = repeat 0 16 /\ wm_tx_ts x = wm_ts_open (N.of_nat d).
 
-Theorem rt_ts_refines : forall recs x0,
-  rt_fresh x0 ->
+Theorem rt_ts_refines_gen : forall recs x0,
+  rt_fresh x0 -> rt_dl [] x0 ->
   let w := ts_file A SE key summ d recs in
   tw_st w = TsOk ->
   let x := wm_ts_close sid (fold_left rt_rec recs x0) in
   exists cs,
+    rt_dl cs x /\
     filter rt_mine (rt_out x) = rev cs ++ filter rt_mine (rt_out x0) /\
     Forall2 (rt_chunk_rel (map rc_off cs)) cs (tw_disk w) /\
     wm_fault (wm_b_raw (wm_tx_base x)) = false /\ rf_bok (wm_tx_base x) /\
     (forall L, (L < 16)%nat -> wm_get_off (wm_tk_offsets (wm_tx_tk x)) (N.of_nat L) = rt_psi (map rc_off cs) (tw_head w L)).
 Proof.
-  intros recs x0 (Fb & Ft & Fty & Foffs & Fts) w Hst x.
+  intros recs x0 (Fb & Ft & Fty & Foffs & Fts) Hdl0 w Hst x.
   assert (HW0 : rt_W (filter rt_mine (rt_out x0)) [] x0 ts_wr0).
   { split; [|split; [|reflexivity]].
-    - split; [|reflexivity]. constructor; cbn [ts_wr0 tw_disk tw_head map length]; try assumption.
+    - split; [|split; [reflexivity|exact Hdl0]]. constructor; cbn [ts_wr0 tw_disk tw_head map length]; try assumption.
       + rewrite Fts. cbn. reflexivity.
       + rewrite Fts. reflexivity.
       + constructor.
@@ -826,12 +849,33 @@ Proof.
   destruct (rt_sim_close_loop 15 15 1 (tw_lv w1) _ cs1 _ _ _ lvs2 ch2 h2 ltac:(lia) HS1 Hlv1 ltac:(lia) ltac:(lia) Ecl) as (cs2 & HS2).
   exists (cs1 ++ cs2). cbn [tw_disk tw_head].
   assert (Ex : x = fold_left (fun x level => wm_ts_commit 16 sid true level x) (map N.of_nat (seq 1 15)) (fold_left rt_rec recs x0)) by reflexivity.
-  rewrite Ex. destruct HS2 as ([Tbok Ttok Tty Tlen Tdec Tnz Tdisk Theads] & Hout).
-  split; [exact Hout|]. split; [exact Tdisk|]. split; [destruct Tbok as (((_ & _ & Hf) & _) & _); exact Hf|]. split; [exact Tbok|].
+  rewrite Ex. destruct HS2 as ([Tbok Ttok Tty Tlen Tdec Tnz Tdisk Theads] & Hout & Hdlx).
+  split; [exact Hdlx|]. split; [exact Hout|]. split; [exact Tdisk|]. split; [destruct Tbok as (((_ & _ & Hf) & _) & _); exact Hf|]. split; [exact Tbok|].
   intros L HL. apply Theads. exact HL.
 Qed.
 
 End RT.
+
+Theorem rt_ts_refines : forall (A SE : Type) (key : A -> Z) (summ : A -> SE) (encA : A -> list N) (encS : SE -> list N) (sid ty : N) (d : nat),
+  sid < 256 -> ty < 4 -> (forall s, length (encS s) = 16%nat) -> (2 <= d)%nat -> 16 + 16 * N.of_nat d < 4294967296 ->
+  (forall r, rf_len (encA r) < 4294967296) ->
+  forall (recs : list A) (x0 : wm_tx),
+  rt_fresh ty d x0 ->
+  let w := ts_file A SE key summ d recs in
+  tw_st w = TsOk ->
+  let x := wm_ts_close sid (fold_left (rt_rec A SE key summ encA encS sid ty) recs x0) in
+  exists cs,
+    rt_out x = rev cs ++ rt_out x0 /\
+    filter (rt_mine sid ty) (rt_out x) = rev cs ++ filter (rt_mine sid ty) (rt_out x0) /\
+    Forall2 (rt_chunk_rel A SE encA encS sid ty (map rc_off cs)) cs (tw_disk w) /\
+    wm_fault (wm_b_raw (wm_tx_base x)) = false /\ rf_bok (wm_tx_base x) /\
+    (forall L, (L < 16)%nat -> wm_get_off (wm_tk_offsets (wm_tx_tk x)) (N.of_nat L) = rt_psi (map rc_off cs) (tw_head w L)).
+Proof.
+  intros A SE key summ encA encS sid ty d H1 H2 H3 H4 H5 H6 recs x0 Hfr w Hst x.
+  assert (Hdl0 : rt_dl x0 0 [] x0) by (split; [apply rf_ext_refl|split; [apply Nat.le_refl|reflexivity]]).
+  destruct (rt_ts_refines_gen A SE key summ encA encS sid ty d H1 H2 H3 H4 H5 x0 0 H6 recs x0 Hfr Hdl0 Hst) as (cs & (_ & _ & Hall) & Rest).
+  exists cs. cbn [skipn] in Hall. split; [exact Hall|exact Rest].
+Qed.
 
 (* ------------------------------------------------------------------ the two instances of the API *)
 Definition rt_anno_encS (s : ts_anno_sum) : list N := let '(t, ty, g, y) := s in wm_anno_summary_entry t ty g y.
